@@ -83,10 +83,15 @@ Print Assumptions C15_other_string_mapping_rejected.
 
 Theorem C15_key_sequence_and_by_key_are_auto_associative :
   forall b n k ks,
-    normalise b n (MSeq (k :: ks)) = Ok [seq (i, i) | i <- k :: ks] /\
+    normalise b n (MSeq (k :: ks)) = Ok [seq (i, i) | i <- first_occurrences (k :: ks)] /\
     ((0 < n)%N -> normalise b n MByKey = Ok [seq (i, i) | i <- iota 0 n]).
 Proof. by move=> b n k ks; split; [exact: key_sequence_is_auto_associative | exact: by_key_pairs_every_key_with_itself]. Qed.
 Print Assumptions C15_key_sequence_and_by_key_are_auto_associative.
+
+Theorem C15_key_sequence_stores_every_key_once :
+  forall (ks : seq nat), uniq (first_occurrences ks) /\ (forall k, (k \in first_occurrences ks) = (k \in ks)).
+Proof. by move=> ks; split; [exact: key_sequence_has_no_duplicates | move=> k; exact: key_sequence_keeps_every_key]. Qed.
+Print Assumptions C15_key_sequence_stores_every_key_once.
 
 (* non-vacuity of the clean-key theorem: two keys, input = first key *)
 From mathcomp Require Import ssrZ.
